@@ -91,8 +91,8 @@ def Fmt.ofNat (f : Nat) : Fmt :=
 `freq * time_factor * rrate / bpm / 1000` truncated towards zero when it is representable
 (`none`: invalid parameter, NaN or above `INT_MAX` → −1); small values are raised to
 `1 << ANTICLICK_SHIFT`. The quotient itself (IEEE doubles) is not modelled. -/
-def ticksizeOf (calc : Option Int) : Int :=
-  match calc with
+def ticksizeOf (q : Option Int) : Int :=
+  match q with
   | none => -1
   | some c => if c < 2 ^ anticlickShift then 2 ^ anticlickShift else c
 
